@@ -274,6 +274,8 @@ class Engine:
         """is cond valid under the current path condition?  -> (True, None) | (False, model)"""
         if isinstance(cond, SymBool):
             cond = cond.e
+        if isinstance(cond, np.bool_):
+            cond = bool(cond)
         if isinstance(cond, bool):
             return (True, None) if cond else (False, self.current_model())
         cond = z3.simplify(cond)
